@@ -5,15 +5,10 @@ From Verif Require Model.ConfigShape Gen.ConfigShape.
 Import ListNotations.
 Open Scope string_scope.
 
-(* The source text still has the shape the model was transcribed from (possibly with the recorded fixes). *)
-Lemma shape_matches : exists fix1 fix2 : bool,
-  Verif.Gen.ConfigShape.sites = Verif.Model.ConfigShape.expected_sites fix1 fix2.
-Proof.
-  first [ exists false, false; vm_compute; reflexivity
-        | exists true, false; vm_compute; reflexivity
-        | exists false, true; vm_compute; reflexivity
-        | exists true, true; vm_compute; reflexivity ].
-Qed.
+(* The source text has the shape the model was transcribed from: today's code, i.e. with both fix commits
+   (expected_sites true true). *)
+Lemma shape_matches : Verif.Gen.ConfigShape.sites = Verif.Model.ConfigShape.expected_sites true true.
+Proof. vm_compute. reflexivity. Qed.
 
 (* name of the source site a clause id stands for *)
 Definition clause_name (cl : clause) : string :=
@@ -35,7 +30,7 @@ Definition clause_name (cl : clause) : string :=
   | WThresholdZero => "WThresholdZero" | Unmapped => "Unmapped"
   end.
 
-Definition site_ids : list string := Verif.Model.ConfigShape.error_ids (Verif.Model.ConfigShape.expected_sites false false).
+Definition site_ids : list string := Verif.Model.ConfigShape.error_ids (Verif.Model.ConfigShape.expected_sites true true).
 Definition known (cl : clause) : bool := existsb (String.eqb (clause_name cl)) site_ids.
 
 Ltac piece := repeat match goal with |- context [if ?b then _ else _] => destruct b end; reflexivity.
@@ -79,6 +74,12 @@ Proof.
   - apply forallb_flat_map. intro. apply known_backends.
 Qed.
 
+Lemma known_dup_loop : forall l seen, forallb known (dup_loop seen l) = true.
+Proof.
+  induction l as [|k r IH]; intro seen; cbn [dup_loop]; [reflexivity|].
+  destruct (mem_str k seen); [cbn [forallb]; rewrite IH; reflexivity | apply IH].
+Qed.
+
 (* every clause id the transcription of the code can report is the id of an error site found in the source *)
 Lemma impl_clauses_are_sites : forall c, forallb known (impl_validate c) = true.
 Proof.
@@ -103,7 +104,7 @@ Proof.
       * apply forallb_flat_map. intros [n a]. unfold v_server. apply forallb_app'; piece.
       * unfold v_try. apply forallb_flat_map. intro. piece.
       * unfold v_forced. apply forallb_flat_map. intro. apply forallb_flat_map. intro. piece.
-      * reflexivity.
+      * unfold v_forced_dup. apply known_dup_loop.
       * unfold v_level. piece.
       * unfold v_threshold. piece.
   - unfold v_bedrock. destruct (bedrock_enabled c && bf_enabled c); [|reflexivity].
